@@ -8,4 +8,6 @@ CONSTANTS
   PreFix = FALSE
   CoarseCancel = FALSE
   Modes = {"wait"}
+  Modes2 = {"none"}
+  NeverExits = {}
 INVARIANTS NoJoinRaiseWitness
